@@ -149,6 +149,24 @@ fn level_schema(_: &mut schemars::gen::SchemaGenerator) -> schemars::schema::Sch
 fn ratio_schema(_: &mut schemars::gen::SchemaGenerator) -> schemars::schema::Schema {
     enum_with_null(schemars::schema::InstanceType::Number, vec![serde_json::Value::Null, json!(2), json!(4)])
 }
+fn big_ids_schema(_: &mut schemars::gen::SchemaGenerator) -> schemars::schema::Schema {
+    // 64-bit ids and sentinels as enum members (what `#[repr(i64)]` enums with JsonSchema_repr produce): values
+    // beyond 2^53 do not survive a detour through f64
+    use schemars::schema::*;
+    SchemaObject {
+        instance_type: Some(InstanceType::Integer.into()),
+        enum_values: Some(vec![json!(1), json!(4294967297i64), json!(9007199254740993i64), json!(-1234567890123456789i64),
+            json!(i64::MAX), json!(i64::MIN)]),
+        ..Default::default()
+    }
+    .into()
+}
+#[derive(Deserialize, Serialize, JsonSchema)]
+struct BigIds {
+    #[schemars(schema_with = "big_ids_schema")]
+    id: i64,
+}
+
 #[derive(Deserialize, Serialize, JsonSchema)]
 struct NullInEnum {
     #[schemars(schema_with = "mode_schema")]
@@ -466,6 +484,7 @@ fn main() {
     t!(Exclusive);
     t!(RequiredBeyondProperties);
     t!(NullInEnum);
+    t!(BigIds);
     t!([u8; 0]);
     t!([String; 1]);
     t!(UnitEnum);
